@@ -532,6 +532,11 @@ func (d *Driver) FamUnmarshal(nRandom int, everyNth int) {
 			for _, vo := range variantOpts[:1] {
 				d.unmarshalOne(ti, d.S.Encode(t, am, vo.o), true, fmt.Sprintf("single-%d/%s", i, vo.name), true)
 			}
+			if longestList(am) > 40 {
+				continue // the packed-length boundary values: canonical form only (each costs the trace specification a long parse)
+			}
+			// every field between two unknown fields, whatever the seed
+			d.unmarshalOne(ti, d.S.Encode(t, am, EncOpts{Sandwich: true, R: d.R}), true, fmt.Sprintf("single-%d/sandwich", i), true)
 			vo := variantOpts[1+d.R.Intn(len(variantOpts)-1)]
 			o := vo.o
 			o.R = d.R
@@ -638,10 +643,18 @@ func (d *Driver) FamMutate(perType int, dense bool) {
 				am = d.S.Random(t, d.R, 0, 5)
 			}
 			am = d.S.WithRequired(t, cloneAM(am), d.R)
-			b := d.S.Encode(t, am, EncOpts{})
-			if len(b) == 0 || len(b) > 400 {
+			eo := EncOpts{}
+			if n%3 == 2 {
+				// known fields between unknown ones
+				eo = EncOpts{Sandwich: true, R: d.R}
+			}
+			b := d.S.Encode(t, am, eo)
+			if len(b) == 0 || len(b) > 400 || longestList(am) > 40 {
+				// (the packed-length boundary values of SingleFieldValues are for the marshal / unmarshal families: every mutation of a
+				// 130-element list costs the trace specification a 130-element parse)
 				continue
 			}
+			d.unmarshalOne(ti, b, false, "unmutated", false)
 			// truncation at every offset (dense) or at a few
 			for cut := 0; cut < len(b); cut++ {
 				if !dense && d.R.Intn(4) > 0 {
@@ -678,12 +691,16 @@ func (d *Driver) FamMutate(perType int, dense bool) {
 			// (a decoder that allocates from the declared length shows up in the allocation measurement; larger values could take
 			// the whole process down, which the codec check (C03) turns into a verdict through its crash replay)
 			for _, lp := range lenPrefixes(b, 0, 0) {
-				for _, big := range [][]byte{{0x80, 0x80, 0x40}, {0x80, 0x80, 0x80, 0x20}} {
-					if !dense && d.R.Intn(3) > 0 {
+				for bi, big := range [][]byte{{0x80, 0x80, 0x40}, {0x80, 0x80, 0x80, 0x20},
+					// ... and by declared lengths at which a conversion to int or int32 wraps: 2^31, 2^32, 2^63 and 2^64-1 (no decoder
+					// can allocate these; one that computes with the wrapped value panics or reads the wrong bytes)
+					{0x80, 0x80, 0x80, 0x80, 0x08}, {0x80, 0x80, 0x80, 0x80, 0x10},
+					{0x80, 0x80, 0x80, 0x80, 0x80, 0x80, 0x80, 0x80, 0x80, 0x01}, {0xff, 0xff, 0xff, 0xff, 0xff, 0xff, 0xff, 0xff, 0xff, 0x01}} {
+					if !dense && bi < 4 && d.R.Intn(3) > 0 {
 						continue
 					}
 					mb := append(append(append([]byte{}, b[:lp[0]]...), big...), b[lp[0]+lp[1]:]...)
-					d.unmarshalOne(ti, mb, false, fmt.Sprintf("leninflate-%d-%d", lp[0], len(big)), false)
+					d.unmarshalOne(ti, mb, false, fmt.Sprintf("leninflate-%d-%d", lp[0], bi), false)
 				}
 			}
 			// length inflation: replace a byte by a huge varint
@@ -908,4 +925,14 @@ func Main(types []TypeInfo) {
 	sk, _ := json.Marshal(d.Skipped)
 	fmt.Printf("{\"events\": %d, \"types\": %d, \"skipped\": %s}\n", w.N, len(d.Types), sk)
 	_ = csproto.Size
+}
+
+func longestList(m AM) int {
+	n := 0
+	for _, f := range m.F {
+		if len(f.L) > n {
+			n = len(f.L)
+		}
+	}
+	return n
 }
